@@ -87,7 +87,8 @@ class Fn:
 
     # ---- calls ----------------------------------------------------------------------------
     def calls(self):
-        """list of (block index, callee id, terminator dict)"""
+        """list of (block index, callee id, terminator dict); callee ids are given without trait type arguments
+        (the exact id stays in t["f"]["fn"])"""
         if self._calls is None:
             out = []
             for i, b in enumerate(self.blocks):
@@ -207,6 +208,30 @@ class Fn:
         return None
 
 
+def strip_targs(fid):
+    """drop the <..> trait arguments after `@Trait` (ids stay unique with them; patterns are written without)"""
+    if "@" not in fid or "<" not in fid:
+        return fid
+    out, i, n = [], 0, len(fid)
+    while i < n:
+        ch = fid[i]
+        if ch == "<" and out and re.search(r"@\w+$", "".join(out[-40:])):
+            depth = 0
+            while i < n:
+                if fid[i] == "<":
+                    depth += 1
+                elif fid[i] == ">":
+                    depth -= 1
+                    if depth == 0:
+                        i += 1
+                        break
+                i += 1
+            continue
+        out.append(ch)
+        i += 1
+    return "".join(out)
+
+
 def rel(path):
     p = path
     for pre in (extract.REPO + "/",):
@@ -264,7 +289,7 @@ class Facts:
         if id_or_pat in self.fns:
             return self.fns[id_or_pat]
         r = re.compile(id_or_pat)
-        m = [f for i, f in self.fns.items() if r.search(i)]
+        m = [f for i, f in self.fns.items() if r.search(strip_targs(i))]
         if len(m) == 1:
             return m[0]
         if required:
@@ -273,7 +298,7 @@ class Facts:
 
     def find(self, pat):
         r = re.compile(pat)
-        return [f for i, f in sorted(self.fns.items()) if r.search(i)]
+        return [f for i, f in sorted(self.fns.items()) if r.search(strip_targs(i))]
 
     def const(self, pat):
         if pat in self.consts:
@@ -301,8 +326,9 @@ class Facts:
             cg = {}
             for f in self.fns.values():
                 s = set()
-                for (bi, callee, t) in f.calls():
+                for (bi, callee_s, t) in f.calls():
                     fr = t["f"]
+                    callee = fr.get("fnx", fr["fn"])
                     if callee in self.fns:
                         s.add(callee)
                     if fr.get("res") in ("trait", "virtual", "default"):
@@ -314,13 +340,13 @@ class Facts:
                         if r["k"] == "agg" and r.get("ak") == "closure" and r["fn"] in self.fns:
                             s.add(r["fn"])
                         for o in f.rvalue_operands(r):
-                            if "fn" in o and o["fn"] in self.fns:
-                                s.add(o["fn"])
+                            if "fn" in o and o.get("fnx", o["fn"]) in self.fns:
+                                s.add(o.get("fnx", o["fn"]))
                     t = b["t"]
                     if t["k"] == "call":
                         for a in t["args"]:
-                            if "fn" in a and a["fn"] in self.fns:
-                                s.add(a["fn"])
+                            if "fn" in a and a.get("fnx", a["fn"]) in self.fns:
+                                s.add(a.get("fnx", a["fn"]))
                 cg[f.id] = s
             self._callees = cg
         return self._callees.get(fid, set())
